@@ -577,7 +577,7 @@ pub fn run(ctx: &Ctx) -> Report {
     let mut rng = ctx.rng("c01");
 
     // 1. honest controls under hostile carriers
-    let n_honest = ctx.pick(1600, 16000) / ctx.nshards + 1;
+    let n_honest = ctx.pick(4800, 24000) / ctx.nshards + 1;
     for k in 0..n_honest {
         let h = Honest { seed: rng.u64(), cfg_a: EndCfg::random(&mut rng), cfg_b: EndCfg::random(&mut rng), mitm: Mitm::None };
         if k == 0 {
